@@ -26,7 +26,11 @@ func (x *Exec) evalCall0(n *ast.CallExpr, st *State, env *Env) Val {
 	// conversions and builtins
 	if env.info != nil {
 		if tv, ok := env.info.Types[n.Fun]; ok && tv.IsType() {
-			return x.convert(tv.Type, x.eval(n.Args[0], st, env), st)
+			av := x.eval(n.Args[0], st, env)
+			x.convNode = n
+			cv := x.convert(tv.Type, av, st)
+			x.convNode = nil
+			return cv
 		}
 	}
 	switch f := n.Fun.(type) {
@@ -130,6 +134,9 @@ func (x *Exec) convert(to types.Type, v Val, st *State) Val {
 		return x.materialize(v, to)
 	}
 	from := v.Ty
+	if lo, hi, ok := narrowRange(to); ok && isInt(from) && x.c.inContract == 0 && x.convNode != nil {
+		x.safety("narrowconv", x.convNode, st, and(app("<=", lo, v.T), app("<=", v.T, hi)), "conversion to "+to.String()+" does not truncate")
+	}
 	switch {
 	case isByte(to) && isByte(from), isInt(to) && isInt(from), isFloat(to) && isFloat(from), isString(to) && isString(from), isBool(to) && isBool(from):
 		return Val{T: v.T, Ty: to}
